@@ -1,14 +1,278 @@
 /-
 C12 — development-lag and month arithmetic are mutually inverse and calendar-exact.
+Only property theorems live here (helper lemmas: `Lemmas/DateUtils.lean`).
+
+The model (`Model/DateUtils.lean`) mirrors `bermuda/date_utils.py` over exact rationals, `int()`
+truncation included.  Consequence (finding D8): the laws hold for every result from 1970-01-01 on
+and fail before; the theorems carry the hypothesis, the failure is a theorem too.
 -/
 import Bermuda.Model.DateUtils
 import Bermuda.Spec.C12
+import Bermuda.Lemmas.DateUtils
 namespace Bermuda.Properties.C12
 open Bermuda
 
-/-- D8 (known finding): before 1970 the law fails -/
+/-! ### 1. `add_months(p, dev_lag_months(p, e)) = e` -/
+
+/-- PARTIAL: the inverse law for every evaluation date from 1970-01-01 on (any start date `p`,
+before or after 1970).  Missing part: `e` before 1970, where the law is false (next theorem). -/
+theorem addMonths_devLag_partial (p e : Date) (_hp : p.valid) (he : e.valid) (h70 : 1970 ≤ e.y) :
+    addMonths p (devLagMonths p e) = e :=
+  addMonths_devLag_of_valid p e he h70
+
+/-- the lag from the fixed origin 1969-12-31 is `month index + day / days in month` -/
+theorem originLag_eq (d : Date) :
+    devLagMonths ⟨1969, 12, 31⟩ d = (monthToId d : Rat) + (d.d : Rat) / (dim d.y d.m : Rat) :=
+  initLag_eq d
+
+-- OPEN addMonths_devLag
+--   theorem addMonths_devLag (p e : Date) (hp : p.valid) (he : e.valid) :
+--       addMonths p (devLagMonths p e) = e
+-- FALSE for the code as it stands (finding D8, `int()` truncates toward zero); refuted below, and
+-- `addMonths_devLag_iff` says exactly for which targets it holds.
+
+/-- D8 (known finding): a valid pair before 1970 for which the law fails — already with lag 0:
+`add_months(date(1969,12,15), 0.0) == date(1970,1,15)`. -/
 theorem addMonths_devLag_pre1970_counterexample :
-    addMonths ⟨1969, 12, 15⟩ (devLagMonths ⟨1969, 12, 15⟩ ⟨1969, 12, 15⟩) = ⟨1970, 1, 15⟩ := by
+    (Date.mk 1969 12 15).valid = true ∧ devLagMonths ⟨1969, 12, 15⟩ ⟨1969, 12, 15⟩ = 0 ∧
+    addMonths ⟨1969, 12, 15⟩ (devLagMonths ⟨1969, 12, 15⟩ ⟨1969, 12, 15⟩) = ⟨1970, 1, 15⟩ ∧
+    addMonths ⟨1969, 12, 15⟩ (devLagMonths ⟨1969, 12, 15⟩ ⟨1969, 12, 15⟩) ≠ ⟨1969, 12, 15⟩ := by
+  decide +kernel
+
+/-- the value pinned by `test_add_float_months` is the off-by-one one: three months after
+1962-05-17 is reported as 1962-09-16 -/
+theorem addMonths_pinned_pre1970 : addMonths ⟨1962, 5, 17⟩ 3 = ⟨1962, 9, 16⟩ := by decide +kernel
+
+/-- so the full law is refutable: it is not the case that it holds for all valid dates -/
+theorem addMonths_devLag_all_dates_false :
+    ¬ ∀ p e : Date, p.valid → e.valid → addMonths p (devLagMonths p e) = e := by
+  intro h
+  have := h ⟨1969, 12, 15⟩ ⟨1969, 12, 15⟩ (by decide) (by decide)
+  exact addMonths_devLag_pre1970_counterexample.2.2.2 this
+
+/-- month-end targets are recovered in EVERY year (the lag from the origin is an integer, where
+truncation and floor agree) -/
+theorem addMonths_devLag_monthEnd (p e : Date) (he : e.valid) (hme : e.isMonthEnd) :
+    addMonths p (devLagMonths p e) = e :=
+  Bermuda.addMonths_devLag_monthEnd p e he hme
+
+/-- exact extent of D8 in the model: the law holds for a valid target `e` iff `e` is from 1970 on or
+a month end; every other target before 1970 is missed (by one month, `addMonths_int_pre1970`) -/
+theorem addMonths_devLag_iff (p e : Date) (he : e.valid) :
+    addMonths p (devLagMonths p e) = e ↔ (1970 ≤ e.y ∨ e.isMonthEnd = true) := by
+  constructor
+  · intro h
+    by_cases h70 : 1970 ≤ e.y
+    · exact Or.inl h70
+    · right
+      cases hme : e.isMonthEnd
+      · exact absurd h (addMonths_devLag_pre1970_ne p e he (by omega) hme)
+      · rfl
+  · rintro (h70 | hme)
+    · exact addMonths_devLag_of_valid p e he h70
+    · exact Bermuda.addMonths_devLag_monthEnd p e he hme
+
+/-! ### 2. integer offsets move the month index by exactly `k` -/
+
+/-- adding the integer `k` lands in month `monthToId d + k` (result from 1970 on) -/
+theorem addMonths_int_monthId (d : Date) (k : Int) (hv : d.valid) (h : 0 ≤ monthToId d + k) :
+    monthToId (addMonths d (k : Rat)) = monthToId d + k := by
+  obtain ⟨day, -, -, -, heq⟩ := addMonths_int_form d k hv h
+  rw [heq]; exact monthToId_mk _ _
+
+/-- … on a real calendar day -/
+theorem addMonths_int_valid (d : Date) (k : Int) (hv : d.valid) (h : 0 ≤ monthToId d + k) :
+    (addMonths d (k : Rat)).valid = true := by
+  obtain ⟨day, h1, h2, -, heq⟩ := addMonths_int_form d k hv h
+  rw [heq, valid_iff]
+  have := monthOf_range (monthToId d + k)
+  simp only; omega
+
+/-- D8 for integer offsets: a date that is not a month end, moved into a month before 1970, lands
+exactly one month late -/
+theorem addMonths_int_pre1970 (d : Date) (k : Int) (hv : d.valid) (hne : d.isMonthEnd = false)
+    (h : monthToId d + k < 0) : monthToId (addMonths d (k : Rat)) = monthToId d + k + 1 :=
+  addMonths_int_pre1970_form d k hv hne h
+
+/-- month ends map to the last day of month `monthToId d + k` — in EVERY year, also before 1970 -/
+theorem addMonths_monthEnd_eq (d : Date) (k : Int) (he : d.isMonthEnd) :
+    addMonths d (k : Rat) = monthEndOf (monthToId d + k) :=
+  addMonths_monthEnd_all d k he
+
+/-- month ends map to month ends, exactly `k` months later, on a real date (every year) -/
+theorem addMonths_monthEnd (d : Date) (k : Int) (he : d.isMonthEnd) :
+    (addMonths d (k : Rat)).isMonthEnd = true ∧ (addMonths d (k : Rat)).valid = true ∧
+    monthToId (addMonths d (k : Rat)) = monthToId d + k := by
+  rw [addMonths_monthEnd_eq d k he]
+  exact ⟨monthEndOf_isMonthEnd _, monthEndOf_valid _, monthToId_monthEndOf _⟩
+
+/-- `k = 0` is the identity on every valid date from 1970 on -/
+theorem addMonths_zero (d : Date) (hv : d.valid) (h70 : 1970 ≤ d.y) : addMonths d 0 = d := by
+  have h := addMonths_devLag_of_valid d d hv h70
+  have h0 : devLagMonths d d = 0 := by unfold devLagMonths; simp
+  rwa [h0] at h
+
+/-- composition on month ends (every year): `(d + j) + k = d + (j + k)` -/
+theorem addMonths_add (d : Date) (j k : Int) (he : d.isMonthEnd) :
+    addMonths (addMonths d (j : Rat)) (k : Rat) = addMonths d ((j + k : Int) : Rat) := by
+  rw [addMonths_monthEnd_eq d j he, addMonths_monthEnd_eq _ k (monthEndOf_isMonthEnd _),
+      addMonths_monthEnd_eq d (j + k) he, monthToId_monthEndOf]
+  congr 1; omega
+
+/-- inverse on month ends (every year): adding `-k` undoes adding `k` -/
+theorem addMonths_neg (d : Date) (k : Int) (hv : d.valid) (he : d.isMonthEnd) :
+    addMonths (addMonths d (k : Rat)) ((-k : Int) : Rat) = d := by
+  rw [addMonths_monthEnd_eq d k he, addMonths_monthEnd_eq _ (-k) (monthEndOf_isMonthEnd _),
+      monthToId_monthEndOf]
+  have : monthToId d + k + -k = monthToId d := by omega
+  rw [this]; exact monthEndOf_monthToId hv he
+
+/-! ### 3. lags -/
+
+/-- month-end to month-end lags are exact integers: the difference of the month indices
+(all years, also before 1970) -/
+theorem devLag_monthEnds_int (s e : Date) (_hs : s.valid) (_he : e.valid)
+    (hse : s.isMonthEnd) (hee : e.isMonthEnd) :
+    devLagMonths s e = ((monthToId e - monthToId s : Int) : Rat) := by
+  have e1 : s.d = dim s.y s.m := by simpa [Date.isMonthEnd] using hse
+  have e2 : e.d = dim e.y e.m := by simpa [Date.isMonthEnd] using hee
+  have n1 : ((dim s.y s.m : Nat) : Rat) ≠ 0 := by exact_mod_cast (Nat.ne_of_gt (dim_pos _ _))
+  have n2 : ((dim e.y e.m : Nat) : Rat) ≠ 0 := by exact_mod_cast (Nat.ne_of_gt (dim_pos _ _))
+  unfold devLagMonths monthFraction monthToId
+  rw [e1, e2, div_self n1, div_self n2]
+  push_cast; ring
+
+/-- a cell's lag in days and as timedelta is the difference of the ordinals … -/
+theorem devLag_days_eq_ordinal_diff (c : Cell) :
+    c.devLag .day = ((c.ev.ordinal - c.pe.ordinal : Int) : Rat) ∧
+    c.devLag .timedelta = ((c.ev.ordinal - c.pe.ordinal : Int) : Rat) ∧
+    c.devLag .month = devLagMonths c.pe c.ev := ⟨rfl, rfl, rfl⟩
+
+/-- … and ordinals count calendar days: the `n`-th day after `d` has ordinal `ordinal d + n` -/
+theorem ordinal_counts_days (d : Date) (hv : d.valid) (n : Nat) :
+    (Date.succ^[n] d).valid = true ∧ (Date.succ^[n] d).ordinal = d.ordinal + n :=
+  ⟨iterate_succ_valid hv n, ordinal_iterate_succ hv n⟩
+
+/-- hence the day lag to the `n`-th day after the period end is `n` -/
+theorem devLag_days_counts_days (pe : Date) (hv : pe.valid) (n : Nat) :
+    calculateDevLag pe (Date.succ^[n] pe) .day = (n : Rat) := by
+  simp only [calculateDevLag, ordinal_iterate_succ hv n]
+  have : pe.ordinal + (n : Int) - pe.ordinal = (n : Int) := by omega
+  rw [this]; rfl
+
+/-! ### 4. month ids -/
+
+/-- `id_to_month(month_to_id(d))` is the first day of `d`'s month, with `beginning=False` the last -/
+theorem idToMonth_monthToId (d : Date) (hv : d.valid) :
+    idToMonth (monthToId d) true = ⟨d.y, d.m, 1⟩ ∧
+    idToMonth (monthToId d) false = ⟨d.y, d.m, dim d.y d.m⟩ := by
+  rw [idToMonth_true, idToMonth_false, monthEndOf, yearOf_monthToId hv, monthOf_monthToId hv]
+  exact ⟨rfl, rfl⟩
+
+/-- `month_to_id(id_to_month(id, beginning)) = id` for every integer id, both flags; the dates are
+real, the first resp. last day of their month -/
+theorem monthToId_idToMonth (id : Int) (b : Bool) :
+    monthToId (idToMonth id b) = id ∧ (idToMonth id b).valid = true ∧
+    (if b then (idToMonth id b).d = 1 else (idToMonth id b).isMonthEnd = true) := by
+  cases b
+  · rw [idToMonth_false]
+    exact ⟨monthToId_monthEndOf id, monthEndOf_valid id, by simpa using monthEndOf_isMonthEnd id⟩
+  · rw [idToMonth_true]
+    refine ⟨monthToId_mk id 1, ?_, by simp⟩
+    rw [valid_iff]
+    have := monthOf_range id
+    have := dim_pos (yearOf id) (monthOf id)
+    simp only; omega
+
+/-! ### 5. resolutions -/
+
+/-- month units: `resolution_delta` is `add_months` with the signed quantity -/
+theorem resolutionDelta_month (d : Date) (q : Int) (neg : Bool) :
+    resolutionDelta d q .month neg = addMonths d (((if neg then -q else q) : Int) : Rat) := by
+  cases neg <;> rfl
+
+/-- day units: `resolution_delta` is day arithmetic with the signed quantity -/
+theorem resolutionDelta_day (d : Date) (q : Int) (neg : Bool) :
+    resolutionDelta d q .day neg = d.addDays (if neg then -q else q) := by
+  cases neg <;> rfl
+
+/-- … and day arithmetic is exact on `date.min .. date.max` (ordinals 1 .. 3652059): the result is a
+real date whose ordinal is the start's plus the signed quantity (weeks enter as 7 days through
+`standardize_resolution`) -/
+theorem resolutionDelta_day_ordinal (d : Date) (q : Int) (neg : Bool)
+    (h1 : 1 ≤ d.ordinal + (if neg then -q else q)) (h2 : d.ordinal + (if neg then -q else q) ≤ 3652059) :
+    (resolutionDelta d q .day neg).valid = true ∧
+    (resolutionDelta d q .day neg).ordinal = d.ordinal + (if neg then -q else q) := by
+  rw [resolutionDelta_day]; exact addDays_ordinal d _ h1 h2
+
+-- OPEN standardizeResolution_units
+--   theorem standardizeResolution_units (q : Int) :
+--       standardizeResolution q "month" = .ok (q, .month) ∧ standardizeResolution q "Quarters" = .ok (q * 3, .month) ∧
+--       standardizeResolution q "year" = .ok (q * 12, .month) ∧ standardizeResolution q "days" = .ok (q, .day) ∧
+--       standardizeResolution q "week" = .ok (q * 7, .day) ∧ standardizeResolution q "period" = .error .valueError
+-- (the kernel cannot evaluate `String.toLower` / `String.splitOn`; the unit dispatch is compared with the
+--  compiled model on every unit spelling by the correspondence)
+
+/-! ### 6. the model satisfies the Spec predicates the driver evaluates on the implementation -/
+
+theorem spec_inverse (p e : Date) (he : e.valid) (h70 : 1970 ≤ e.y) :
+    Spec.inverseOk e (addMonths p (devLagMonths p e)) = true := by
+  simp [Spec.inverseOk, addMonths_devLag_of_valid p e he h70]
+
+theorem spec_intShift (d : Date) (k : Int) (hv : d.valid) (h : 0 ≤ monthToId d + k) :
+    Spec.intShiftOk d k (addMonths d (k : Rat)) = true := by
+  unfold Spec.intShiftOk
+  rw [addMonths_int_valid d k hv h, addMonths_int_monthId d k hv h]
+  cases hme : d.isMonthEnd
+  · simp
+  · simp [(addMonths_monthEnd d k hme).1]
+
+/-- month ends: in every year -/
+theorem spec_monthEndShift (d : Date) (k : Int) (he : d.isMonthEnd) :
+    Spec.monthEndShiftOk d k (addMonths d (k : Rat)) = true := by
+  obtain ⟨h1, h2, h3⟩ := addMonths_monthEnd d k he
+  unfold Spec.monthEndShiftOk
+  rw [h1, h2, h3]
+  simp
+
+theorem spec_monthEndLag (s e : Date) (hs : s.valid) (he : e.valid) (hse : s.isMonthEnd)
+    (hee : e.isMonthEnd) : Spec.monthEndLagOk s e (devLagMonths s e) = true := by
+  simp [Spec.monthEndLagOk, devLag_monthEnds_int s e hs he hse hee]
+
+theorem spec_dayDelta (d : Date) (q : Int) (neg : Bool)
+    (h1 : 1 ≤ d.ordinal + (if neg then -q else q)) (h2 : d.ordinal + (if neg then -q else q) ≤ 3652059) :
+    Spec.dayDeltaOk d q neg (resolutionDelta d q .day neg) = true := by
+  obtain ⟨hv, ho⟩ := resolutionDelta_day_ordinal d q neg h1 h2
+  simp [Spec.dayDeltaOk, hv, ho]
+
+theorem spec_dayLag (c : Cell) : Spec.dayLagOk c.pe c.ev (c.ev.ordinal - c.pe.ordinal) = true := by
+  simp [Spec.dayLagOk]
+
+theorem spec_monthId (d : Date) (hv : d.valid) :
+    Spec.monthIdOk d (monthToId d) = true ∧ Spec.firstDayOk d (idToMonth (monthToId d) true) = true ∧
+    Spec.lastDayOk d (idToMonth (monthToId d) false) = true := by
+  obtain ⟨h1, h2⟩ := idToMonth_monthToId d hv
+  refine ⟨by simp [Spec.monthIdOk, monthToId], by simp [Spec.firstDayOk, h1], by simp [Spec.lastDayOk, h2]⟩
+
+theorem spec_idToMonth (id : Int) (b : Bool) : Spec.idToMonthOk id b (idToMonth id b) = true := by
+  obtain ⟨h1, h2, h3⟩ := monthToId_idToMonth id b
+  unfold Spec.idToMonthOk
+  rw [h1, h2]
+  cases b <;> simp_all
+
+/-! ### 7. non-vacuity: the hypotheses are satisfiable by non-trivial inputs -/
+
+example : (Date.mk 2019 11 17).valid = true ∧ (Date.mk 2024 2 29).valid = true ∧ (1970 : Int) ≤ 2024 ∧
+    devLagMonths ⟨2019, 11, 17⟩ ⟨2024, 2, 29⟩ = 51 + 13 / 30 ∧
+    addMonths ⟨2019, 11, 17⟩ (51 + 13 / 30) = ⟨2024, 2, 29⟩ := by decide +kernel
+
+example : (Date.mk 2020 2 29).valid = true ∧ (Date.mk 2020 2 29).isMonthEnd = true ∧
+    addMonths ⟨2020, 2, 29⟩ ((-5 : Int) : Rat) = ⟨2019, 9, 30⟩ ∧
+    addMonths ⟨2019, 9, 30⟩ ((5 : Int) : Rat) = ⟨2020, 2, 29⟩ ∧
+    monthToId ⟨2020, 2, 29⟩ + (-5) = monthToId ⟨2019, 9, 30⟩ := by decide +kernel
+
+/-- a mid-month date moved across a February: the month index moves by exactly 1, the day scales -/
+example : addMonths ⟨2021, 1, 15⟩ ((1 : Int) : Rat) = ⟨2021, 2, 14⟩ ∧ (0 : Int) ≤ monthToId ⟨2021, 1, 15⟩ + 1 := by
   decide +kernel
 
 end Bermuda.Properties.C12
